@@ -53,15 +53,31 @@ def trace_start_ids(text: str) -> Dict[str, Any]:
     try:
         drv = make_driver(str(tmp / "t.jsonl"), "hash")
         p = Pipeline(nodes, trace=drv)
+        res = None
         try:
-            p.process(Payload(NoDataType(), ContextType({"factor": 2.0, "value": 1.0})))
+            res = p.process(Payload(NoDataType(), ContextType({"factor": 2.0, "value": 1.0})))
         except Exception:
             pass
+        # HISTORY: the caller post-processes what the run handed back (in place), then the SAME Pipeline object runs again:
+        # the identities attached to the second pipeline_start are those of the configuration, not of what happened in between
+        if res is not None:
+            for v_ in list(res.context.to_dict().values()):
+                if isinstance(v_, list) and v_:
+                    v_.pop()
+                    v_.append(-12345.0)
+            try:
+                p.process(Payload(NoDataType(), ContextType({"factor": 2.0, "value": 1.0})))
+            except Exception:
+                pass
         recs = read_records(tmp / "t.jsonl") if (tmp / "t.jsonl").exists() else []
-        st = next((r for r in recs if r["record_type"] == "pipeline_start"), None)
+        starts = [r for r in recs if r["record_type"] == "pipeline_start"]
+        st = starts[0] if starts else None
         if st is None:
             return {}
-        return {"semantic_id": st["meta"].get("semantic_id"), "config_id": st["meta"].get("config_id"),
+        ids_of = lambda r: (r["meta"].get("semantic_id"), r["meta"].get("config_id"), r["meta"].get("node_semantic_ids"), r.get("pipeline_id"),
+                            [n["node_uuid"] for n in r["pipeline_spec_canonical"]["nodes"]])
+        return {"second_run_differs": len(starts) > 1 and ids_of(starts[1]) != ids_of(starts[0]),
+                "semantic_id": st["meta"].get("semantic_id"), "config_id": st["meta"].get("config_id"),
                 "node_semantic_ids": st["meta"].get("node_semantic_ids"),
                 "uuids": [n["node_uuid"] for n in st["pipeline_spec_canonical"]["nodes"]],
                 "canonical_uuids_from_pipeline": [n["node_uuid"] for n in p.canonical_spec["nodes"]]}
@@ -89,6 +105,9 @@ def check_chunk(es: List[Dict[str, Any]]):
             out["paths"] += 1
             s, tr = summary(pb), trace_start_ids(tb)
             if tr:
+                if tr.get("second_run_differs"):
+                    out["viol"].append(("history:second-run-on-one-pipeline", f"the identities attached to pipeline_start differ between the first and the second run of one "
+                                        f"Pipeline object (the caller edited the returned context lists in place in between)\n{tb}", {"edge": e}))
                 if tr["semantic_id"] != s["semantic_id"] or tr["config_id"] != s["config_id"]:
                     out["viol"].append(("inspect-vs-trace:ids", f"inspect ids ({s['semantic_id'][:16]}, {s['config_id'][:16]}) != pipeline_start.meta ({str(tr['semantic_id'])[:16]}, {str(tr['config_id'])[:16]})\n{tb}", {"edge": e}))
                 if tr["uuids"] != [u for u, _ in s["nodes"]] or tr["canonical_uuids_from_pipeline"] != tr["uuids"]:
